@@ -11,9 +11,11 @@ import (
 	"crypto/sha1"
 	"crypto/sha256"
 	"crypto/sha512"
+	stdtls "crypto/tls"
 	"encoding/hex"
 	"fmt"
 	"hash"
+	"io"
 	"strings"
 
 	tls "github.com/refraction-networking/utls"
@@ -380,6 +382,105 @@ func c25Independent(name string, weak bool) *explore.Scenario {
 			r.Count("kind_"+rs.kind, 1)
 			r.Obs = fmt.Sprintf("%s|client-records=%d|server-records=%d", rs.kind, cn, sn)
 			r.Class = sig + "|" + r.Obs
+			return
+		},
+	}
+}
+
+// c25StdPeerKeyUpdates — TLS 1.3 key updates against an independent implementation. A utls
+// client and a utls server ratchet their traffic secrets with the same code, so a wrong ratchet
+// (e.g. always deriving from the first application secret) is invisible between them. Here the
+// peer is the standard library's server: the utls client sends every sequence of up to 3
+// KeyUpdates {not requesting, requesting one back} with an echo round trip after each; a
+// requested update makes the server update its own sending keys, which exercises the client's
+// receive-side ratchet as often as the sequence says.
+func c25StdPeerKeyUpdates() *explore.Scenario {
+	suites := []uint16{tls.TLS_AES_128_GCM_SHA256, tls.TLS_AES_256_GCM_SHA384, tls.TLS_CHACHA20_POLY1305_SHA256}
+	return &explore.Scenario{
+		Name: "tls13-key-updates-vs-standard-library-peer",
+		Run: func(x *explore.X) (r explore.Result) {
+			suite := suites[x.Choose("suite", len(suites))]
+			n := x.Choose("updates", 4)
+			var ops []bool
+			for i := 0; i < n; i++ {
+				ops = append(ops, x.Choose("requested", 2) == 1)
+			}
+			size := []int{1, 1000, 17000}[x.Choose("size", 3)]
+			what := fmt.Sprintf("suite=%04x updates(requesting)=%v chunk=%d", suite, ops, size)
+			ce, se := peer.Pipe()
+			srv := stdtls.Server(se, stdServerConfig())
+			sdone := make(chan error, 1)
+			go func() {
+				defer se.SetIdle()
+				if err := srv.Handshake(); err != nil {
+					se.Close()
+					sdone <- err
+					return
+				}
+				buf := make([]byte, 32768)
+				for {
+					k, err := srv.Read(buf)
+					if k > 0 {
+						if _, werr := srv.Write(buf[:k]); werr != nil {
+							se.Close()
+							sdone <- werr
+							return
+						}
+					}
+					if err != nil {
+						se.Close()
+						sdone <- err
+						return
+					}
+				}
+			}()
+			sp := handshakeSpec("tls13-minimal")
+			sp.CipherSuites = []uint16{suite}
+			u := tls.UClient(ce, peer.ClientConfig("example.com"), tls.HelloCustom)
+			fail := func(stage string, err error) {
+				r.Violate(fmt.Sprintf("C25|std-peer|%s|suite=%04x|updates=%d", stage, suite, len(ops)), "%s: %s: %v", what, stage, err)
+			}
+			defer func() { u.Close(); ce.Close(); <-sdone }()
+			if err := u.ApplyPreset(sp); err != nil {
+				fail("apply", err)
+				return
+			}
+			if err := u.Handshake(); err != nil {
+				fail("handshake", err)
+				return
+			}
+			echo := func(round int) bool {
+				msg := payload(size, byte(round))
+				if _, err := u.Write(msg); err != nil {
+					fail(fmt.Sprintf("write-after-%d-updates", round), err)
+					return false
+				}
+				got := make([]byte, len(msg))
+				if _, err := io.ReadFull(u, got); err != nil {
+					fail(fmt.Sprintf("read-after-%d-updates", round), err)
+					return false
+				}
+				if !bytes.Equal(got, msg) {
+					fail(fmt.Sprintf("echo-differs-after-%d-updates", round), nil)
+					return false
+				}
+				return true
+			}
+			r.Nontrivial = len(ops) > 1
+			r.Class = what
+			if !echo(0) {
+				return
+			}
+			for i, req := range ops {
+				if err := tls.VerifSendKeyUpdate(u.Conn, req); err != nil {
+					fail("send-key-update", err)
+					return
+				}
+				if !echo(i + 1) {
+					return
+				}
+			}
+			r.Obs = fmt.Sprintf("ok|%d", len(ops))
 			return
 		},
 	}
